@@ -466,7 +466,9 @@ def _ladder_source(prog, mi, pt, tp):
                 if isinstance(n, ast.Attribute) and isinstance(n.value, ast.Name) and n.value.id == cparam:
                     attrs.add(n.attr)
     if len(attrs) != 1:
-        raise AnalysisError(f"anchor vanished: the worker's re-scaling of a received log-probability ({sorted(attrs)})")
+        return struct_ob("ladder-source", qual(pt, init), False,
+                         f"the worker stores a received log-probability scaled with {sorted(attrs) or 'no attribute'} of its chain: there is "
+                         f"no single inverse-temperature attribute the controller's ladder could be read from", REL, tp.lineno)
     attr = next(iter(attrs))
     lay = Layouts(init, prog, mi, pt).state.get("self.inv_temps")
     want = (("each", ("iter", chains), f"va0.{attr}"),)
